@@ -14,9 +14,11 @@ fn main() {
     let included: Vec<usize> = (0..flat.len()).filter(|g| !exclude.contains(g)).collect();
     let nbins = nbins.min(included.len().max(1));
     std::fs::create_dir_all(format!("{outdir}/src/bin")).unwrap();
+    let pkg = format!("{}_{}", prop.to_lowercase(), tier);
+    let prefix = format!("{}{}", prop.to_lowercase(), &tier[..1]);
     let cargo = format!(
         r#"[package]
-name = "e2e_batch"
+name = "e2e_batch_{pkg}"
 version = "0.1.0"
 edition = "2021"
 
@@ -53,7 +55,7 @@ opt-level = 3
             let (g, i) = flat[gid];
             let m = gs[g].specs[i].print_module(gid);
             let n = m.matches('\n').count();
-            writeln!(lines, "b{b}.rs {line} {} {gid}", line + n - 1).unwrap();
+            writeln!(lines, "{prefix}_b{b}.rs {line} {} {gid}", line + n - 1).unwrap();
             src += &m;
             line += n;
         }
@@ -62,15 +64,14 @@ opt-level = 3
             src += &format!("        ({gid}, m{gid}::run as refmodel::trace::Runner),\n");
         }
         src += "    ]);\n}\n";
-        write_if_changed(&format!("{outdir}/src/bin/b{b}.rs"), &src);
+        write_if_changed(&format!("{outdir}/src/bin/{prefix}_b{b}.rs"), &src);
     }
     // remove stale bins
     for e in std::fs::read_dir(format!("{outdir}/src/bin")).unwrap().flatten() {
         let name = e.file_name().to_string_lossy().to_string();
-        if let Some(n) = name.strip_prefix('b').and_then(|s| s.strip_suffix(".rs")).and_then(|s| s.parse::<usize>().ok()) {
-            if n >= nbins {
-                std::fs::remove_file(e.path()).unwrap();
-            }
+        let keep = name.strip_prefix(&format!("{prefix}_b")).and_then(|s| s.strip_suffix(".rs")).and_then(|s| s.parse::<usize>().ok()).map(|n| n < nbins).unwrap_or(false);
+        if !keep {
+            std::fs::remove_file(e.path()).unwrap();
         }
     }
     std::fs::write(format!("{outdir}/lines.txt"), lines).unwrap();
@@ -79,7 +80,7 @@ opt-level = 3
         writeln!(defs, "{gid}\t{g}\t{}\t{}", gs[*g].specs[*i].family, gs[*g].specs[*i].describe()).unwrap();
     }
     std::fs::write(format!("{outdir}/defs.tsv"), defs).unwrap();
-    println!("{} {}", flat.len(), nbins);
+    println!("{} {} {}", flat.len(), nbins, prefix);
 }
 
 fn write_if_changed(path: &str, content: &str) {
